@@ -215,7 +215,13 @@ fn k_sighash(out: &mut Out, tx: &Transaction, ps: &[TxOut], genesis: &[u8; 32], 
         "panic" => "panic".to_string(),
         _ => format!("ok {} {}", d, m),
     };
-    out.k(sighash_line(tx, ps, genesis, q), res);
+    // the K line carries the transaction in its consensus encoding: an in-memory transaction that the encoding cannot
+    // represent (a null outpoint holding a pegin flag or an issuance) is compared with the independent oracle only
+    if matches!(elements::encode::deserialize::<Transaction>(&serialize(tx)), Ok(ref t) if t == tx) {
+        out.k(sighash_line(tx, ps, genesis, q), res);
+    } else {
+        out.count("sighash.oracle_only_not_transportable");
+    }
     // the message and the digest must fail together
     let d_ok = d.len() == 64;
     let m_ok = !(m == "err" || m == "errPrevoutKind" || m == "panic");
@@ -1080,6 +1086,44 @@ pub fn run(rng: &mut R, out: &mut Out) {
         let ps: Vec<TxOut> = (0..nin).map(|_| gen::txout(rng, false)).collect();
         exhaustive_types(out, rng, &tx, &ps);
         modification_tables(out, rng, &tx, &ps);
+    }
+    // inputs that are exact copies of each other (the signed one is identified by POSITION, not by value), and null
+    // outpoints that carry a pegin flag and/or an issuance in memory (the taproot outpoint flag comes from the
+    // fields, not from the serialized index) — K + independent oracle only
+    for variant in 0..(if thorough { 240 } else { 16 }) {
+        let (mut tx, mut ps) = scenario_tx(rng);
+        if tx.input.is_empty() {
+            let k = gen::in_kind(rng);
+            tx.input.push(gen::txin(rng, k, false));
+            ps.push(gen::txout(rng, false));
+        }
+        let i = rng.gen_range(0..tx.input.len());
+        match variant % 4 {
+            0 | 2 => {
+                let c = tx.input[i].clone();
+                let p = ps[i].clone();
+                let at = rng.gen_range(0..=tx.input.len());
+                tx.input.insert(at, c);
+                ps.insert(at, p);
+                out.count("tx.duplicated_input");
+            }
+            1 => {
+                tx.input[i].previous_output = elements::OutPoint::null();
+                tx.input[i].is_pegin = true;
+                out.count("tx.null_outpoint_with_pegin_flag");
+            }
+            _ => {
+                let mut n = gen::txin(rng, gen::InKind::Issuance, variant % 8 == 3);
+                n.previous_output = elements::OutPoint::null();
+                n.is_pegin = variant % 16 == 3;
+                tx.input[i] = n;
+                out.count("tx.null_outpoint_with_issuance");
+            }
+        }
+        if tx.input.len() <= 4 {
+            exhaustive_types(out, rng, &tx, &ps);
+        }
+        one_scenario(out, rng, &tx, &ps, 8);
     }
     let (n_ex, n_rand, n_tab) = if thorough { (150, 6000, 600) } else { (8, 200, 20) };
     for _ in 0..n_ex {
